@@ -39,7 +39,44 @@ META = {
 }
 
 
+def pickling(rep):
+    """objects shipped to worker processes are rebuilt from their pickled state: a custom `__reduce__` must hand every configuration value to
+    the parameter of the same name (two same-typed flags swapped on the way make a worker run with another configuration than the serial path)"""
+    n = 0
+    for rel in (BR, BC, CRN, AV, BL):
+        mi = rep.repo.module(rel)
+        for q, fi in mi.funcs.items():
+            if not q.endswith(".__reduce__") and not q.endswith(".__reduce_ex__"):
+                continue
+            n += 1
+            rep.touch(fi)
+            for r in returns_of(fi.node):
+                v = r.value
+                if not (isinstance(v, ast.Tuple) and len(v.elts) >= 2 and isinstance(v.elts[1], ast.Tuple)):
+                    rep.ob("O14.1", "R8", fi, None, r, "__reduce__ result not of the form (callable, (args..))", node=r)
+                    continue
+                cal = v.elts[0]
+                target = mi.funcs.get(norm(cal)) if isinstance(cal, ast.Name) else None
+                if target is None and isinstance(cal, ast.Name) and cal.id in mi.classes:
+                    target = mi.funcs.get(f"{cal.id}.__init__")
+                if target is None:
+                    rep.ob("O14.1", "R8", fi, None, r, "reconstruction callable not found in the module", node=r)
+                    continue
+                params = [p_ for p_ in target.params if p_ not in ("self", "cls")]
+                swapped = []
+                for i, a in enumerate(v.elts[1].elts):
+                    nm = a.attr.lstrip("_") if isinstance(a, ast.Attribute) and norm(a.value) == "self" else (a.id if isinstance(a, ast.Name) else None)
+                    if nm is None or i >= len(params):
+                        continue
+                    if nm != params[i] and nm in params:
+                        swapped.append(f"argument {i} is `{norm(a)}` but parameter {i} of {target.qual} is `{params[i]}`")
+                rep.ob("O14.1", "R8", fi, not swapped, alpha(v, fi.node)[:90], "the pickled configuration reaches the like-named parameters of the reconstruction function" +
+                       (": " + "; ".join(swapped[:2]) if swapped else ""), node=r)
+    rep.extra["custom_reduce_methods"] = n
+
+
 def run(rep):
+    rep.run(pickling)
     rep.run(cache)
     sites = parallel_sites(rep)
     rep.run(agreement, sites)
